@@ -160,6 +160,8 @@ type pSet struct {
 	marks             *graphalg.NodeMarks
 	idom              []int
 	invT, invT2       func(float64) float64 // long-lived quantile functions, shared by all goroutines
+	wsHuge, wsTiny    []float64             // weights of extreme magnitude (1/sigma^2 with sigma in ns / in 1e6)
+	gBig              graph.IntGraph        // 3000 nodes: node ids beyond any small fixed-size scratch structure
 	objs              map[string]func() string
 }
 
@@ -200,6 +202,20 @@ func mkSet(rng *rand.Rand) *pSet {
 		w[len(w)-1] = 2
 		w[0] = 0
 		p.swsamp = stats.Sample{Xs: xs, Weights: w, Sorted: true}
+	}
+	p.wsHuge, p.wsTiny = tied(n, 5, 1), tied(n, 5, 1)
+	for i := range p.wsHuge {
+		p.wsHuge[i] *= 1e17
+		p.wsTiny[i] *= 1e-13
+	}
+	p.gBig = make(graph.IntGraph, 3000)
+	for i := range p.gBig {
+		if i+1 < len(p.gBig) {
+			p.gBig[i] = append(p.gBig[i], i+1)
+		}
+		if rng.Intn(3) == 0 {
+			p.gBig[i] = append(p.gBig[i], rng.Intn(len(p.gBig)))
+		}
 	}
 	p.linRev = scale.Linear{Min: 100, Max: -3.25}
 	p.rev = rng.Perm(5)
@@ -251,6 +267,8 @@ func mkSet(rng *rand.Rand) *pSet {
 	p.objs = map[string]func() string{
 		"xs1": func() string { return digestAny(p.xs1) }, "xs2": func() string { return digestAny(p.xs2) },
 		"pos": func() string { return digestAny(p.pos) }, "ws": func() string { return digestAny(p.ws) },
+		"wsHuge": func() string { return digestAny(p.wsHuge) }, "wsTiny": func() string { return digestAny(p.wsTiny) },
+		"gBig": func() string { return digestAny(graph.Graph(p.gBig)) },
 		"samp": func() string { return digSample(&p.samp) }, "wsamp": func() string { return digSample(&p.wsamp) },
 		"sortMe": func() string { return digSample(&p.sortMe) }, "swsamp": func() string { return digSample(&p.swsamp) },
 		"linRev": func() string { return fmt.Sprintf("%+v", p.linRev) }, "rev": func() string { return digestAny(p.rev) },
@@ -391,6 +409,21 @@ func purityEntries() []pEntry {
 				}
 			}, func(xs, o []float64) { copy(o, xs) })
 		}},
+		{"fit.LinearLeastSquares(huge weights)", []string{"xs1", "pos", "wsHuge"}, "", false, func(p *pSet) any {
+			return fit.LinearLeastSquares(p.xs1, p.pos, p.wsHuge, func(xs, o []float64) {
+				for i := range o {
+					o[i] = 1
+				}
+			}, func(xs, o []float64) { copy(o, xs) })
+		}},
+		{"fit.PolynomialRegression(tiny weights)", []string{"xs1", "pos", "wsTiny"}, "", false, func(p *pSet) any {
+			r := fit.PolynomialRegression(p.xs1, p.pos, p.wsTiny, 1)
+			return []any{r.Coefficients, r.F(1.5)}
+		}},
+		{"graphalg.PreOrder(big)", []string{"gBig"}, "", false, func(p *pSet) any { return graphalg.PreOrder(p.gBig, 0) }},
+		{"graphalg.PostOrder(big)", []string{"gBig"}, "", false, func(p *pSet) any { return graphalg.PostOrder(p.gBig, 0) }},
+		{"graphalg.PreOrder(big, inner root)", []string{"gBig"}, "", false, func(p *pSet) any { return graphalg.PreOrder(p.gBig, 2500) }},
+		{"graphalg.IDom(big)", []string{"gBig"}, "", false, func(p *pSet) any { return graphalg.IDom(graph.MakeBiGraph(p.gBig), 1100) }},
 		{"fit.PolynomialRegression", []string{"xs1", "pos"}, "", false, func(p *pSet) any {
 			r := fit.PolynomialRegression(p.xs1, p.pos, nil, 2)
 			return []any{r.Coefficients, r.F(1.5), r.String()}
